@@ -324,13 +324,19 @@ RenderFrag(fm0, delivery, ops) ==
 (* Metadata (C18).  md = [present : "none" | "udta" | "meta" | "full",
                           fullbox, handler (4cc), items : Seq([cc, type (Big), data])]
    present "none": no udta; "udta": empty udta; "meta": meta + hdlr without ilst; "full": with ilst *)
-ItemNode(it) == Cont(it.cc, <<>>, <<Leaf(EncData([data_type |-> it.type, data |-> it.data]))>>)
+\* md may carry `large`: a subset of {"data", "item", "ilst", "meta", "udta"} -- the boxes of those
+\* kinds get 64-bit size headers
+LargeOf(md) == IF "large" \in DOMAIN md THEN md.large ELSE {}
+WithLarge(n, on) == [n EXCEPT !.large = on]
+ItemNodeL(it, lg) == WithLarge(Cont(it.cc, <<>>, <<WithLarge(Leaf(EncData([data_type |-> it.type, data |-> it.data])), "data" \in lg)>>), "item" \in lg)
+ItemNode(it) == ItemNodeL(it, {})
+MetaNode(md) ==
+  LET lg == LargeOf(md)
+      hd == Leaf(EncHdlr([version |-> 0, flags |-> 0, handler_type |-> md.handler, name |-> <<>>]))
+      il == WithLarge(Cont(ILST, <<>>, [i \in 1..Len(md.items) |-> ItemNodeL(md.items[i], lg)]), "ilst" \in lg)
+  IN WithLarge(Cont(META, IF md.fullbox THEN Zeros(4) ELSE <<>>, IF md.present = "meta" THEN <<hd>> ELSE <<hd, il>>), "meta" \in lg)
 UdtaNodes(md) ==
   IF md.present = "none" THEN <<>>
   ELSE IF md.present = "udta" THEN <<Cont(UDTA, <<>>, <<>>)>>
-  ELSE LET hd == Leaf(EncHdlr([version |-> 0, flags |-> 0, handler_type |-> md.handler, name |-> <<>>]))
-           il == Cont(ILST, <<>>, [i \in 1..Len(md.items) |-> ItemNode(md.items[i])])
-       IN <<Cont(UDTA, <<>>,
-                 <<Cont(META, IF md.fullbox THEN Zeros(4) ELSE <<>>,
-                        IF md.present = "meta" THEN <<hd>> ELSE <<hd, il>>)>>)>>
+  ELSE <<WithLarge(Cont(UDTA, <<>>, <<MetaNode(md)>>), "udta" \in LargeOf(md))>>
 =============================================================================
